@@ -350,6 +350,31 @@ def r4_sentinel_outside_element_domain(ctx):
         raise AnalysisError("no previous-element cells found in the transducers")
 
 
+@rule("C07.R6", floor=1)
+def r6_transducing_loop_does_not_look_ahead(ctx):
+    """transduce checks (reduced? result) at the top of each iteration, so the iteration that calls xf
+    must hand the *unrealised* remainder on ((rest coll)): a recur that also evaluates (next coll) /
+    (seq (rest coll)) forces the element after the one that terminated the reduction -- early
+    termination would still pull (and, for a blocking or throwing producer, wait for or fail on)
+    one more input than the lazy form of the same pipeline."""
+    td = _defs(ctx).get("transduce")
+    if td is None:
+        raise AnalysisError("anchor vanished: core.lpy::transduce")
+    n = 0
+    for params, body in L.fn_arities(td):
+        for rc in (f for b in body for f in L.walk(b) if L.head(f) == "recur"):
+            args = rc.items[1:]
+            if not any(L.head(a) == "xf" or any(L.head(x) == "xf" for x in L.walk(a)) for a in args):
+                continue
+            n += 1
+            eager = [x for a in args for x in L.walk(a) if L.head(x) == "next" or (L.head(x) == "seq" and len(x.items) == 2 and L.head(x.items[1]) in ("rest", "next"))]
+            ctx.ob("C07.R6", f"{CORE}::transduce::`{rc.text()[:70]}` passes the remainder on unrealised", CORE, rc.line, not eager,
+                   "" if not eager else f"`{eager[0].text()}` is evaluated in the same step as the xf call, before (reduced? result) is tested again: one element past the terminating one is realised",
+                   witness="(transduce (take 2) conj [] s) over a lazy s whose third element throws")
+    if n == 0:
+        raise AnalysisError("transduce no longer has a recur that calls xf")
+
+
 REDUCERS = ("src/basilisp/lang/runtime.py", "src/basilisp/lang/vector.py", "src/basilisp/lang/map.py", "src/basilisp/lang/set.py", "src/basilisp/lang/list.py", "src/basilisp/lang/seq.py", "src/basilisp/lang/queue.py")
 
 
